@@ -59,7 +59,10 @@ pub fn mx_equiv(k: usize, g: usize) -> VD {
         3 => VD::DStr(g),
         4 => VD::El("div".into(), vec![("title".into(), AttrV::Dyn(g))], vec![]),
         5 => VD::El("span".into(), vec![], vec![VD::DStr(g)]),
-        _ => VD::El("div".into(), vec![("hidden".into(), AttrV::DynBool(g))], vec![VD::Text("x".into()), mx_text(g)]),
+        6 => VD::El("div".into(), vec![("hidden".into(), AttrV::DynBool(g))], vec![VD::Text("x".into()), mx_text(g)]),
+        // raw-text / escapable-raw-text parents: an interpolation is what it is whatever element is around it
+        7 => VD::El("title".into(), vec![], vec![mx_text(g)]),
+        _ => VD::El("style".into(), vec![], vec![VD::Text("p".into()), mx_text(g)]),
     }
 }
 /// `(expr)` with a `String` value inside `view!` is NOT the text specialisation of `View::from_dynamic` (the macro converts
@@ -68,7 +71,7 @@ pub fn mx_equiv(k: usize, g: usize) -> VD {
 fn mx_text(g: usize) -> VD {
     VD::DView(g, (0..8).map(|i| vec![VD::Text(dtext_str(i))]).collect())
 }
-pub const MX_SITES: usize = 7;
+pub const MX_SITES: usize = 9;
 const PARITY: [&str; 2] = ["even", "odd"];
 fn mx_attr(v: u32) -> Option<String> { if v % 3 == 0 { None } else { Some(v.to_string()) } }
 /// a wrapper that forwards an `expr` fragment into `view!` (the proc-macro receives it as an invisible group)
@@ -81,7 +84,9 @@ fn mx_build(k: usize, s: Signal<u32>) -> View {
         3 => view! { (PARITY[(s.get() % 2) as usize]) },
         4 => view! { div(title=mx_attr(s.get())) },
         5 => mx_fwd!(PARITY[(s.get() % 2) as usize]),
-        _ => view! { div(hidden=s.get() % 2 == 1) { "x" (dtext_str(s.get() % 8)) } },
+        6 => view! { div(hidden=s.get() % 2 == 1) { "x" (dtext_str(s.get() % 8)) } },
+        7 => view! { title { (dtext_str(s.get() % 8)) } },
+        _ => view! { style { "p" (dtext_str(s.get() % 8)) } },
     }
 }
 
